@@ -124,8 +124,17 @@ class Runner:
         self.dev = RecDevice()
         # the tolerance mode is a public attribute: set it through the constructor or afterwards (as isobar.shorthand does)
         late = (q + tpb) % 2 == 1
-        self.tl = isobar.Timeline(tempo=120, output_device=self.dev, clock_source=DummyClock(ticks_per_beat=tpb),
+        # the resolution reaches the timeline by any of the three documented routes: the clock's constructor, the
+        # timeline's own setter, or the clock source's attribute — all before the first tick
+        route = (q * 3 + tpb) % 3
+        self.tl = isobar.Timeline(tempo=120, output_device=self.dev,
+                                  clock_source=(DummyClock(ticks_per_beat=tpb) if route == 0 else DummyClock()),
                                   ignore_exceptions=(False if late else bool(tolerant)))
+        if route == 1:
+            self.tl.ticks_per_beat = tpb
+        elif route == 2:
+            self.tl.clock_source.ticks_per_beat = tpb
+        assert self.tl.ticks_per_beat == tpb
         if late:
             self.tl.ignore_exceptions = bool(tolerant)
         self.streams, self.tracks, self.ids, self.k, self.dead = {}, {}, {}, 0, False
@@ -227,6 +236,21 @@ class Runner:
         pre, cyc = self.streams[sid]
         return Lasso(self, pre, cyc)
 
+    def typed_count(self, count):
+        """an event count in one of the integer-valued types a program may compute it in (chosen from the value and the
+        number of tracks so far): int, numpy integers, Fraction, an integral float — all mean the same limit"""
+        if count is None:
+            return None
+        kinds = [int, int, int]
+        try:
+            import numpy as np
+            kinds += [np.int64, np.int32, np.uint8]
+        except ImportError:
+            pass
+        from fractions import Fraction
+        kinds += [Fraction, float]
+        return kinds[(count * 5 + len(self.tracks)) % len(kinds)](count)
+
     def apply_op(self, w):
         """Returns (res, None); device calls are collected from self.dev.calls by the caller."""
         tl = self.tl
@@ -238,7 +262,7 @@ class Runner:
                     kw["quantize"] = self.beats(qz)
                 if dl is not None:
                     kw["delay"] = self.beats(dl)
-                tr = tl.schedule(self.new_pattern(sid), count=count, remove_when_done=rwd,
+                tr = tl.schedule(self.new_pattern(sid), count=self.typed_count(count), remove_when_done=rwd,
                                  name=(None if name is None else "n%d" % name), replace=replace, **kw)
                 if id(tr) not in self.ids:
                     tid = len(self.tracks)
@@ -251,7 +275,7 @@ class Runner:
                     kw["quantize"] = self.beats(qz)
                 if dl is not None:
                     kw["delay"] = self.beats(dl)
-                tr = tl.schedule(self.new_pattern(sid), count=count, remove_when_done=rwd, track_index=idx, **kw)
+                tr = tl.schedule(self.new_pattern(sid), count=self.typed_count(count), remove_when_done=rwd, track_index=idx, **kw)
                 tid = len(self.tracks)
                 self.tracks[tid] = tr
                 self.ids[id(tr)] = tid
@@ -263,7 +287,7 @@ class Runner:
                     kw["quantize"] = self.beats(qz)
                 if dl is not None:
                     kw["delay"] = self.beats(dl)
-                tr.update(self.new_pattern(sid), count=count, **kw)
+                tr.update(self.new_pattern(sid), count=self.typed_count(count), **kw)
             elif w[0] == "unsched":
                 tr = self.live(int(w[1]))
                 if int(w[1]) % 2:
